@@ -4,16 +4,16 @@ patch=$(readlink -f $1); tier=$2; shift 2
 cd /repo || exit 2
 if ! git diff --quiet; then echo "repo dirty"; exit 2; fi
 if ! git apply "$patch" 2>/dev/null; then
-  if ! git apply --3way "$patch" 2>/dev/null; then echo "PATCH DOES NOT APPLY: $patch"; git checkout -- . ; exit 3; fi
+  if ! git apply --3way "$patch" 2>/dev/null; then echo "PATCH DOES NOT APPLY: $patch"; git reset -q; git checkout -- . ; exit 3; fi
   git reset -q
 fi
 export GOFLAGS=-mod=mod GOPROXY=off GOSUMDB=off GOTOOLCHAIN=local
-if ! go build ./... ; then echo "MUTANT DOES NOT BUILD"; git checkout -- .; exit 3; fi
+if ! go build ./... ; then echo "MUTANT DOES NOT BUILD"; git reset -q; git checkout -- .; exit 3; fi
 cd /verif
 for id in "$@"; do
   out=$(./check $id $tier 2>/dev/null)
   rc=$?
   echo "== $id rc=$rc $(echo "$out" | grep -c '^VIOLATION') violations; $(echo "$out" | grep -m1 '^VIOLATION\|^INCONCLUSIVE')"
 done
-git -C /repo checkout -- .
+git -C /repo reset -q; git -C /repo checkout -- .
 git -C /repo status --short
